@@ -74,6 +74,8 @@ var Assign = Cello(Assign,
 
 var assign(var self, var obj) {
   
+  if (self is obj) { return self; }
+  
   struct Assign* a = instance(self, Assign);
   
   if (a and a->assign) {
